@@ -724,3 +724,21 @@ Definition reuse (c : cfg) (s : state) (x sz : N) (ord : list fname) : bool :=
 Definition after (c : cfg) (s : state) (ops : list op) : state := fold_left (fun s o => st_of (step c s o)) ops s.
 Fixpoint wf_all (c : cfg) (s : state) (ops : list op) : bool :=
   match ops with [] => true | o :: t => wf_op c s o && wf_all c (st_of (step c s o)) t end.
+
+(* ---- a crash DURING recovery. Recovery itself removes directories: the whole incomplete area when
+   RebootIncompleteBlobs is off (crash_recovery.go:29) and, with the fix, every entry it drops. An
+   interrupted os.RemoveAll leaves the directory with a subset of its files (or nothing). *)
+Definition dsub (d' d : bdir) : Prop :=
+  (d_data d' = d_data d \/ d_data d' = None) /\ (d_sizef d' = d_sizef d \/ d_sizef d' = None) /\
+  (d_ban d' = true -> d_ban d = true) /\ (forall s v, aget s (d_md d') = Some v -> aget s (d_md d) = Some v).
+Definition osub (o' o : option bdir) : Prop :=
+  o' = None \/ exists d d', o = Some d /\ o' = Some d' /\ dsub d' d.
+(* f' = the disk f after recovery was interrupted at any point: kept entries untouched, entries that
+   recovery drops (and everything under incomplete/ when it is wiped) partially or fully removed *)
+Definition interrupted_recovery (c : cfg) (f f' : fs) : Prop :=
+  dom f' = dom f /\
+  forall x,
+    (if isSome (fst (rec_comp (fst (blobs f x)))) then fst (blobs f' x) = fst (blobs f x)
+     else osub (fst (blobs f' x)) (fst (blobs f x))) /\
+    (if c_ri c && isSome (fst (rec_inc true (snd (blobs f x)))) then snd (blobs f' x) = snd (blobs f x)
+     else osub (snd (blobs f' x)) (snd (blobs f x))).
